@@ -1157,27 +1157,39 @@ LB_changed(LB* self, PyObject* ignored)
             cache = c
         return cache
 */
+/* Returns a NEW reference. Looking `key` up can run Python code (a __hash__
+   or __eq__ written in Python) that clears our caches, so `cache` is kept
+   alive for the duration and what is found in it is handed out owned. */
 static PyObject*
 _subcache(PyObject* cache, PyObject* key)
 {
     PyObject* subcache;
 
+    Py_INCREF(cache);
     subcache = PyDict_GetItem(cache, key);
     if (subcache == NULL) {
         int status;
 
         subcache = PyDict_New();
-        if (subcache == NULL)
+        if (subcache == NULL) {
+            Py_DECREF(cache);
             return NULL;
+        }
         status = PyDict_SetItem(cache, key, subcache);
-        Py_DECREF(subcache);
-        if (status < 0)
+        Py_DECREF(cache);
+        if (status < 0) {
+            Py_DECREF(subcache);
             return NULL;
+        }
+        return subcache;
     }
+    Py_INCREF(subcache);
+    Py_DECREF(cache);
 
     return subcache;
 }
 
+/* Returns a NEW reference, see _subcache. */
 static PyObject*
 _getcache(LB* self, PyObject* provided, PyObject* name)
 {
@@ -1189,8 +1201,11 @@ _getcache(LB* self, PyObject* provided, PyObject* name)
     if (cache == NULL)
         return NULL;
 
-    if (name != NULL && PyObject_IsTrue(name))
-        cache = _subcache(cache, name);
+    if (name != NULL && PyObject_IsTrue(name)) {
+        PyObject* named = _subcache(cache, name);
+        Py_DECREF(cache);
+        return named;
+    }
 
     return cache;
 }
@@ -1237,14 +1252,13 @@ _lookup(LB* self,
     if (required == NULL)
         return NULL;
 
+    /* We own `cache`: the calls below can run arbitrary Python code
+       (including other threads) that clears our caches. */
     cache = _getcache(self, provided, name);
     if (cache == NULL) {
         Py_DECREF(required);
         return NULL;
     }
-    /* Hold a strong reference: the call below can run arbitrary Python code
-       (including other threads) that clears our caches. */
-    Py_INCREF(cache);
 
     if (PyTuple_GET_SIZE(required) == 1)
         key = PyTuple_GET_ITEM(required, 0);
@@ -1337,6 +1351,7 @@ _lookup1(LB* self,
     if (result == NULL) {
         PyObject* tup;
 
+        Py_DECREF(cache);
         tup = PyTuple_New(1);
         if (tup == NULL)
             return NULL;
@@ -1349,6 +1364,7 @@ _lookup1(LB* self,
             result = default_;
         }
         Py_INCREF(result);
+        Py_DECREF(cache);
     }
 
     return result;
@@ -1514,7 +1530,6 @@ _lookupAll(LB* self, PyObject* required, PyObject* provided)
         Py_DECREF(required);
         return NULL;
     }
-    Py_INCREF(cache); /* see _lookup */
 
     result = PyDict_GetItem(cache, required);
     if (result == NULL) {
@@ -1588,7 +1603,6 @@ _subscriptions(LB* self, PyObject* required, PyObject* provided)
         Py_DECREF(required);
         return NULL;
     }
-    Py_INCREF(cache); /* see _lookup */
 
     result = PyDict_GetItem(cache, required);
     if (result == NULL) {
